@@ -1,23 +1,28 @@
 #!/bin/bash
-# tools/keep_seed.sh <ID> <N> "<what it breaks / needs>" : store a confirmed seeded change under /verif/seeded/<ID>-m<N>/
-ID=$1; N=$2; NEEDS=$3; D=/verif/seeded/$ID-m$N; mkdir -p $D
-cp /tmp/mut/$ID-out/m$N.diff $D/patch.diff; cp /tmp/mut/$ID-out/demo_m$N.py $D/demo.py
+# tools/keep_seed.sh <ID> <N> "<what it breaks> || <what it needs to manifest>" [dest-N]
+# store a confirmed seeded change (from /tmp/mut/<ID>-out, confirmation log in /tmp/mut/confirm) under /verif/seeded/<ID>-m<dest-N>/ and record the check's verdict on it
+ID=$1; N=$2; NEEDS=$3; DN=${4:-$N}; D=/verif/seeded/$ID-m$DN; mkdir -p $D
+cp /tmp/mut/$ID-out/m$N.diff $D/patch.diff || exit 1; cp /tmp/mut/$ID-out/demo_m$N.py $D/demo.py || exit 1
 cd /repo && git apply --check $D/patch.diff 2>/dev/null && APPLIES=true || APPLIES=false
 OUT=$(cd /verif && tools/seedtest.sh $ID $D/patch.diff 2>&1)
 RC=$(echo "$OUT" | grep -o "exit=[0-9]*" | cut -d= -f2)
 FIRST=$(echo "$OUT" | grep -m1 "^VIOLATION" | sed 's/.*replays\/[A-Z0-9]*\///; s/\.json.*//')
 NV=$(echo "$OUT" | grep -c "^VIOLATION")
+NOINPUT=$(echo "$OUT" | grep "^VIOLATION" | grep -c "no-failing-input-found")
 REPLAYED=$(echo "$OUT" | grep -c "replayed on the real code")
 CONF=$(grep -E "^exit=" /tmp/mut/confirm/${ID}_m$N.txt 2>/dev/null | tr '\n' ' ')
-NEWF=$(sed -n '/new failures/,/done/p' /tmp/mut/confirm/${ID}_m$N.txt 2>/dev/null | grep -E "^(FAILED|ERROR)" | tr '\n' ';')
-python3 - "$ID" "$N" "$NEEDS" "$RC" "$FIRST" "$NV" "$REPLAYED" "$CONF" "$NEWF" "$APPLIES" <<'PY'
+SUITE=$(grep -m1 -E "stable_pass=|passed|new failures" /tmp/mut/confirm/${ID}_m$N.txt 2>/dev/null | tr -d '\n')
+ISO=$(sed -n '/re-running in isolation/,/done/p;/new failures vs baseline/,/done/p' /tmp/mut/confirm/${ID}_m$N.txt 2>/dev/null | grep -v "^done" | tr '\n' ';' | cut -c1-600)
+python3 - "$ID" "$DN" "$NEEDS" "$RC" "$FIRST" "$NV" "$REPLAYED" "$CONF" "$SUITE" "$ISO" "$APPLIES" "$NOINPUT" <<'PY'
 import json,sys
-ID,N,NEEDS,RC,FIRST,NV,REPLAYED,CONF,NEWF,APPLIES=sys.argv[1:]
+ID,N,NEEDS,RC,FIRST,NV,REPLAYED,CONF,SUITE,ISO,APPLIES,NOINPUT=sys.argv[1:]
 meta={"property":ID,"breaks":NEEDS.split("||")[0].strip(),"needs_to_manifest":NEEDS.split("||")[1].strip() if "||" in NEEDS else "",
  "source":"independent sub-agent given only the property text and a scratch worktree",
- "confirmed":{"demo_exit_clean_then_mutated":CONF.strip(),"new_test_failures_vs_baseline":NEWF or "none","how":"/root/confirm_seed.sh: demo on clean worktree, apply patch, demo again, full pytest suite on the mutated worktree compared with the clean worktree's failure list"},
+ "confirmed":{"demo_exit_clean_then_mutated":CONF.strip(),"suite_on_mutated_tree":SUITE,"failures_outside_baseline_rerun_in_isolation":ISO or "none",
+              "how":"demo on the clean scratch worktree, apply patch, demo again, full pytest suite on the mutated worktree against the stable_pass list; load-dependent timeouts (k8s / gcp_batch executors) re-run alone"},
  "applies_to_current_repo_head":APPLIES=="true",
- "check_result":{"command":f"git -C /repo apply patch.diff && ./check {ID}; git -C /repo checkout -- .","exit":int(RC or -1),"violation_lines":int(NV),"replayed_natively":int(REPLAYED)>0,"first_failed_obligation":FIRST}}
+ "check_result":{"command":f"git -C /repo apply patch.diff && ./check {ID}; git -C /repo checkout -- .","exit":int(RC or -1),"violation_lines":int(NV),"of_which_no_failing_input_found":int(NOINPUT),
+                 "replayed_natively":int(REPLAYED)>0,"first_failed_obligation":FIRST}}
 json.dump(meta,open(f"/verif/seeded/{ID}-m{N}/meta.json","w"),indent=1)
-print(ID,N,"exit",RC,"violations",NV,"first",FIRST)
+print(ID,N,"exit",RC,"violations",NV,"no-input",NOINPUT,"first",FIRST)
 PY
